@@ -49,18 +49,30 @@ Fixpoint mset_eqb {A} (eqb : A -> A -> bool) (a b : list A) : bool :=
   | x :: r => match remove1 eqb x b with Some b' => mset_eqb eqb r b' | None => false end
   end.
 
+Fixpoint list_eqb {A} (eqb : A -> A -> bool) (a b : list A) : bool :=
+  match a, b with
+  | [], [] => true
+  | x :: r, y :: r' => eqb x y && list_eqb eqb r r'
+  | _, _ => false
+  end.
+
 Definition model_lines (names : list string) (s : cstate) : list (string * string) :=
   map (fun l => (cl_crt l, cl_filter l)) (crt_list names s).
 
-(* the default line first, the others as a multiset (their order never matters to the
-   selection: the filters are distinct), and every name of the universe *)
+(* the lines in file order (default line first, then the hosts sorted by name: Go's string
+   order is the byte order of str_ltb), and every name of the universe *)
 Definition obs_ok (w : world) (x : st) (o : kobs) : bool :=
-  let ml := model_lines (host_names w) (fst x) in
-  match ml, ko_lines o with
-  | d :: r, d' :: r' => pair_eqb d d' && mset_eqb pair_eqb r r'
-  | _, _ => false
-  end
-  && forallb (fun e => String.eqb (served_in (host_names w) (fst x) (fst e)) (snd e)) (ko_served o).
+  let cl := crt_list (host_names w) (fst x) in      (* served_in names s n = sni_select cl n *)
+  let ml := map (fun l => (cl_crt l, cl_filter l)) cl in
+  list_eqb pair_eqb ml (ko_lines o)
+  && forallb (fun e => String.eqb (sni_select cl (fst e)) (snd e)) (ko_served o).
+
+Lemma obs_ok_served w x o : obs_ok w x o = true ->
+  forall e, In e (ko_served o) -> served_in (host_names w) (fst x) (fst e) = snd e.
+Proof.
+  unfold obs_ok. intros H e He. apply andb_true_iff in H as [_ H].
+  rewrite forallb_forall in H. apply String.eqb_eq. exact (H e He).
+Qed.
 
 Definition world_of (s : kstep) : world := match s with KFull w => w | KPartial w _ => w end.
 
